@@ -11,19 +11,26 @@ from vf.oracle import partrules as R
 
 
 class MapRecorder:
+    """Records (input, ihmax, label map) of every native call, per thread (the monitor's own state
+    must not be shared between threads)."""
+
     def __init__(self, specpart):
+        import threading
         self.mod = specpart
         self.orig = specpart.partition
-        self.calls = []
+        self.tls = threading.local()
         specpart.partition = self
 
     def __call__(self, spec, ihmax):
         L = self.orig(spec, ihmax)
-        self.calls.append((np.array(spec, copy=True), int(ihmax), np.array(L, copy=True)))
+        if not hasattr(self.tls, "calls"):
+            self.tls.calls = []
+        self.tls.calls.append((np.array(spec, copy=True), int(ihmax), np.array(L, copy=True)))
         return L
 
     def take(self):
-        c, self.calls = self.calls, []
+        c = getattr(self.tls, "calls", [])
+        self.tls.calls = []
         return c
 
 
@@ -48,6 +55,34 @@ def make_spec(rng, f, th, cls):
 CLASSES = ["multimodal", "multimodal", "noisy", "plateau", "sparse", "constant"]
 
 
+def repo_tests(ctx, mode, tests):
+    """Extra workload (thorough tier, shard 0): the repository's own tests under the monitor."""
+    import json, os, subprocess, tempfile
+    from vf import repo_root, VERIF_ROOT, PYTHON
+    from wavespectra.partition import specpart
+    rec = ctx.rec
+    fd, out = tempfile.mkstemp(suffix=".json")
+    os.close(fd)
+    env = dict(os.environ, PYTHONPATH=VERIF_ROOT + os.pathsep + repo_root(), VF_SO=specpart.__file__, VF_PLUGIN_OUT=out, VF_PLUGIN_MODE=mode, MPLBACKEND="Agg")
+    try:
+        subprocess.run([PYTHON, "-m", "pytest", "-q", "-p", "no:cacheprovider", "-p", "vf.pytest_plugin", "-x", "--timeout=900"] + tests,
+                       cwd=repo_root(), env=env, capture_output=True, text=True, timeout=3000)
+        res = json.load(open(out))
+    except Exception as e:
+        rec.skip("repo_tests", "could not run the repository tests under the monitor: %r" % (e,))
+        return
+    finally:
+        if os.path.exists(out):
+            os.remove(out)
+    for op, n in res["ok"].items():
+        for _ in range(n):
+            rec.ok(op, "repository test-suite workload")
+    for b in res["bad"]:
+        rec.bad(b["op"], b["test"], b["detail"], b["mech"])
+    for k, n in res["skip"].items():
+        rec.skip(k, "x%d" % n)
+
+
 def run(ctx):
     import xarray as xr
     import wavespectra  # noqa
@@ -59,6 +94,9 @@ def run(ctx):
         numpy_level(ctx, rng, pmod, mr, utils)
     for i, rng in ctx.cases("accessor", ctx.n(260, 6000)):
         accessor_level(ctx, rng, xr, pmod, mr, utils)
+    if ctx.thorough and ctx.shard == 0 and ctx.only is None:
+        specpart.partition = mr.orig
+        repo_tests(ctx, "c03", ["tests/test_partition.py"])
 
 
 def grid(rng, small=False):
